@@ -35,9 +35,8 @@ MUTANTS = [
 	('c05-condensed-offset-drift', 'C05', 'src/gambit/metric.py',
 	 "next_out += ncol", ["next_out += ncol if i != 2 else ncol - 1"]),
 	('c08-gz-stripped-after-fasta-suffix', 'C08', 'src/gambit/cli/common.py',
-	 "filename = strip_extensions(filename, GZIP_EXTENSIONS)", ["filename = strip_extensions(filename, FASTA_EXTENSIONS)"]),
-	('c08-gz-stripped-after-fasta-suffix', 'C08', 'src/gambit/cli/common.py',
-	 "filename = strip_extensions(filename, FASTA_EXTENSIONS)", ["filename = strip_extensions(filename, GZIP_EXTENSIONS)"]),
+	 "filename = strip_extensions(filename, GZIP_EXTENSIONS)",
+	 ["filename = strip_extensions(filename, FASTA_EXTENSIONS)", "return strip_extensions(filename, GZIP_EXTENSIONS)"]),
 	('c08-labels-sorted', 'C08', 'src/gambit/cli/common.py',
 	 "ids = [get_file_id(f, strip_dir, strip_ext) for f in paths_str]", ["ids = sorted(get_file_id(f, strip_dir, strip_ext) for f in paths_str)"]),
 	('c08-chunk-boundary-slip', 'C08', 'src/gambit/metric.py',
